@@ -236,6 +236,7 @@ func emptyRootSignature(q *query) bool {
 }
 
 const (
+	idTotalWraps  = "C10-partset-total-wraps"
 	idEmptyRoot   = "C10-verify-empty-root"
 	idEmptyReader = "C10-empty-partset-reader-panic"
 	idRelabel     = "C10-proof-relabel"
@@ -284,14 +285,14 @@ func (c *byteCh) Int(lo, hi int, _ string) int {
 // Mutations are picked in two steps (group, then member): rapid's integer draws favour small values, so a flat
 // 47-way choice would spend most of the budget on the first few kinds.
 var mutGroups = [][]string{
-	{"aunt-flip", "aunt-drop", "aunt-dup", "aunt-swap", "aunt-reverse", "aunt-append", "aunt-prepend", "aunt-trunc", "aunts-of-other", "aunts-clear", "aunt-zero"},
+	{"aunt-flip", "aunt-drop", "aunt-dup", "aunt-swap", "aunt-reverse", "aunt-append", "aunt-prepend", "aunt-trunc", "aunt-extend", "aunts-of-other", "aunts-clear", "aunt-zero"},
 	{"relabel"},
 	{"transplant-index", "transplant-item", "sibling-swap", "proof-of-other-leaf", "foreign", "inner-as-leaf"},
 	{"idx-other", "idx+1", "idx-1", "idx=total", "idx-neg", "idx-big"},
 	{"item-flip", "item-trunc", "item-extend", "item-other", "item-empty"},
 	{"tot+1", "tot-1", "tot-zero", "tot-neg", "tot-huge", "tot-other"},
 	{"leafhash-flip", "leafhash-other", "leafhash-trunc", "leafhash-extend", "leafhash-empty", "leafhash-of-item"},
-	{"aunt-flip", "aunt-drop", "aunt-dup", "aunt-swap", "aunt-reverse", "aunt-append", "aunt-prepend", "aunt-trunc", "aunts-of-other", "aunts-clear", "aunt-zero"},
+	{"aunt-flip", "aunt-drop", "aunt-dup", "aunt-swap", "aunt-reverse", "aunt-append", "aunt-prepend", "aunt-trunc", "aunt-extend", "aunts-of-other", "aunts-clear", "aunt-zero"},
 }
 
 // rootGroup additionally changes the root the proof is checked against (raw Proof.Verify / TxProof only).
@@ -442,6 +443,15 @@ func mutate(c chooser, q *query, kind string, base *refTree, g int, other *refTr
 		if len(p.Aunts[i]) > 0 {
 			p.Aunts[i] = p.Aunts[i][:len(p.Aunts[i])-1]
 		}
+	case "aunt-extend":
+		// the genuine hash followed by extra bytes (only the wire decoders insist on 32-byte aunts)
+		if len(p.Aunts) == 0 {
+			kind += "-none"
+			break
+		}
+		i := pickAunt()
+		extra := c.Int(1, 40, "extra")
+		p.Aunts[i] = append(cloneBytes(p.Aunts[i]), expand([]byte{byte(extra)}, extra)...)
 	case "aunts-of-other":
 		p.Aunts = cloneAunts(base.aunts[c.Int(0, n-1, "j")])
 	case "aunts-clear":
